@@ -1,0 +1,11 @@
+//go:build !verif
+// +build !verif
+
+package raft
+
+import (
+	"github.com/ipfs/ipfs-cluster/api"
+	"github.com/ipfs/ipfs-cluster/state"
+)
+
+func verifHook(ev string, cc *Consensus, st state.State, t LogOpType, pin *api.Pin) {}
